@@ -88,6 +88,9 @@ def run(tier, replay):
         extra = [[L("a", "num", 2), L("b", "num", 2), L("a", "num", -1)], [L("b", "num", 0), L("a", "num", 2), L("b", "none")],
                  [L("a", "none"), L("b", "num", 2), L("a", "num", 2)], [L("a", "nan"), L("a", "num", 2), L("b", "num", -1)],
                  [L("a", "num", 2), L("a", "num", 0), L("a", "num", -1)], [L("b", "num", 2), L("a", "num", -1), L("b", "num", -1)]]
+        # magnitudes: sums/minima/maxima at and beyond 10^6, where a partial result is serialised in exponent notation
+        extra = extra + [[L("a", "num", 1000000), L("b", "num", 2), L("a", "num", 5)], [L("a", "num", 999999), L("a", "num", 1), L("b", "num", 1234567)],
+                         [L("a", "num", -1000000), L("b", "num", 25000000), L("a", "num", -1)]]
         if tier != "quick":
             extra = extra + [[L("a", "num", 2), L("b", "num", 0), L("a", "num", -1), L("b", "nan")],
                              [L("b", "num", -1), L("a", "none"), L("b", "num", 2), L("a", "num", 0)]]
@@ -162,6 +165,19 @@ def run(tier, replay):
                 V.violation("the final result differs from the central evaluation", desc)
         if problems > len(chosen) // 20:
             raise vlib.Inconclusive("%d cases had harness problems: %s" % (problems, [r["problem"] for r in results if r.get("problem")][:3]))
+        # magnitudes: a partial count/sum beyond 10^6 inside one serialisation interval
+        mo = os.path.join(wd, "mag.json")
+        nbig = 1000005 if tier == "quick" else 2500003
+        rc, out = vlib.go_test(wd, "./internal/mapr/server", OV, "TestC05Magnitude", env={"VERIF_OUT": mo, "VERIF_N": nbig}, timeout=900)
+        if rc != 0 or not os.path.exists(mo):
+            raise vlib.Inconclusive("magnitude harness failed\n" + out[-2000:])
+        mag = json.load(open(mo))
+        want = {"a": [nbig + 2, nbig + 8, 1, 5, (nbig + 8) / (nbig + 2)], "b": [1, 2, 2, 2, 2.0], "c": [3, 2000000, 1, 1000000, 2000000 / 3]}
+        got = {r[0]: [float(x) for x in r[1:]] for r in mag["rows"] if len(r) == 6}
+        for g, w in want.items():
+            if g not in got or any(abs(a - b) > 1e-4 * max(1.0, abs(b)) for a, b in zip(got[g], w)):
+                V.violation("magnitude case: group %s is %s, central evaluation gives %s (count,sum,min,max,avg)" % (g, got.get(g), w),
+                            {"n": nbig, "rows": mag["rows"], "wire": mag["wire"][:6]})
         cov = {"states": r.distinct + re_.distinct, "transitions": r.generated + re_.generated,
                "traces_validated_against_impl": len(chosen) - problems, "evaluations": len(chosen) - problems,
                "distinct_nontrivial": sum(1 for c in chosen if nontrivial(c)),
